@@ -91,6 +91,15 @@ def run_angle(sx, axis, half, axis_scale=1):
     sx.prove_close(edge.length, r * abs(theta_val), f"Angle edge ({half} deg): length == radius * |angle|", tol=1e-7,
                    key=f"C08:angle:length:{'reflex' if abs(theta_val) > math.pi else 'minor'}")
     _chord(sx, edge, p1, p2, "angle")
+    # the vertices are moved (as after assemble, or by an optimizer) to another chord of a concentric circle twice as large:
+    # the arc is the one of the present vertex positions
+    q1, q2 = C + (p1 - C) * 2, C + (p2 - C) * 2
+    edge.vertex_1.move_to(q1)
+    edge.vertex_2.move_to(q2)
+    sx.prove_vec_close(edge.third_point.position, C + (P(1) - C) * 2, f"Angle edge ({half} deg) after its vertices moved: third "
+                       "point follows the vertices", tol=1e-8, key="C08:angle:third-point:after-move")
+    sx.prove_close(edge.length, r * 2 * abs(theta_val), f"Angle edge ({half} deg) after its vertices moved: length follows",
+                   tol=1e-7, key="C08:angle:length:after-move")
     return "angle"
 
 
@@ -138,6 +147,11 @@ def run_origin(sx, axis, half):
     sx.prove_close(edge.length, r * included, f"Origin edge ({half} deg): length == radius * included angle", tol=1e-7,
                    key="C08:origin:length")
     _chord(sx, edge, p1, p2, "origin")
+    q1, q2 = C + (p1 - C) * 2, C + (p2 - C) * 2
+    edge.vertex_1.move_to(q1)
+    edge.vertex_2.move_to(q2)
+    sx.prove_vec_close(edge.third_point.position, C + (want - C) * 2, f"Origin edge ({half} deg) after its vertices moved: third "
+                       "point follows the vertices", tol=1e-8, key="C08:origin:third-point:after-move")
     return "origin"
 
 
